@@ -107,6 +107,14 @@ def obligations(chk, specs, tier):
     jobs = 8
     results, tail = run(['harness::' + n for n in names], jobs=jobs, harness_timeout_s=1200 if tier == "quick" else 3600, total_timeout_s=3000 if tier == "quick" else 10800)
     log(f'kani: {len(names)} harnesses in {time.time() - t0:.0f}s')
+    # a harness that timed out (or never started) on a loaded machine gets one more run, a few at a time; a second timeout stays inconclusive
+    again = [n for n in names if results.get('harness::' + n) is None or results['harness::' + n]['status'] in ('TIMEOUT', 'UNKNOWN')]
+    if again and len(again) <= 6:
+        log(f'kani: re-running {again} after timeout')
+        r2, tail2 = run(['harness::' + n for n in again], jobs=3, harness_timeout_s=2400 if tier == "quick" else 3600, total_timeout_s=5400)
+        for k, v in r2.items():
+            if v['status'] not in ('TIMEOUT', 'UNKNOWN'): results[k] = v
+        tail += tail2
     chk.trusted |= {'Kani 0.68 / CBMC 6.11 (CaDiCaL)', 'kani::any() models of primitive types'}
     import hashlib
     src = harness_sources()
